@@ -21,6 +21,24 @@ CHECKS = {
  "C14": dict(level="model_checking", design="§4 C14", technique="exhaustive enumeration of all trees of a bounded universe x all patterns <= k segments x all WalkDir roots x callbacks skipping/failing at every visit index, against filepath.Glob / os.ReadDir / filepath.WalkDir on an identical tmpfs tree",
    text="Every tree over 2 names (quick, 1093 trees) / 3 top-level names (thorough), materialised in MemFS, OrefaFS, RoFS, FailFS, BasePathFS and on tmpfs; every pattern of <= 2/3 segments from a 10-segment alphabet (absolute and relative), every directory for ReadDir, every root and every callback behaviour (SkipDir/SkipAll/error at each visit index) for WalkDir, a non-administrator pass for unreadable directories, and the Exists/IsDir/IsEmpty/DirExists helpers against Stat/ReadDir of the same instance.",
    note="Spelling of Glob results (cleaned vs verbatim) is not compared; DirEntry.Info fields are not compared where the oracle's lazy Info fails."),
+ "C02": dict(level="model_checking", design="§4 C02", technique="explicit-state BFS over handle/path operation histories on the real MemFS/OrefaFS in lock-step with *os.File on tmpfs (kernel oracle)",
+   text="Every history of <= 3 (quick) / <= 4-5 (thorough) operations on up to 2-3 handle slots of one file (12 resp. all 48 flag sets; Read/ReadAt/Write/WriteAt/WriteString/Seek/Truncate/Stat/Sync/Chmod/Chown/Chdir/Close/Name with offsets straddling the current size) interleaved with path-level Truncate/Rename/Link/Remove, and of <= 4-6 ReadDir/Readdirnames calls on directory handles, is executed on both sides; byte counts, bytes, offsets, error kinds and the content/size/attributes seen through every handle and name are compared after every step; states deduplicated on the kernel side.",
+   note="Kernel entry order of directories is unspecified: directory reads are compared on batch sizes, errors, no-duplicate and union. SEEK_DATA/SEEK_HOLE excluded (file-system specific). Name on a nil handle not compared."),
+ "C04": dict(level="model_checking", design="§4 C04", technique="exhaustive enumeration of symlink graphs x query paths x calls on the real MemFS against the kernel / filepath.EvalSymlinks on an identical tmpfs tree",
+   text="All link graphs with 2 (quick) / 3 (thorough) links over 18 target shapes and 2 placements, all query paths of <= 3 / <= 4 components (absolute, plus relative to two working directories), 18 calls (read-only ones on a shared configuration, mutating ones on a fresh copy followed by a whole-tree comparison), and chains of 1..70 links; each disagreement is additionally classified by asking the kernel the lexically normalised question.",
+   note="Oracle = Linux 6.x tmpfs and filepath.EvalSymlinks of go1.23.5; Readlink compared after Clean, as the statement says."),
+ "C07": dict(level="model_checking", design="§4 C07", technique="exhaustive enumeration of every exported method (by reflection) x adversarial argument domains x reachable states on every file-system type, plus deadlock/panic detection on every schedule of the concurrent programs under the controlled scheduler",
+   text="Sequential: every method of avfs.VFS, File, IdentityMgr, VolumeManager and the generic helpers on 12 Linux-typed and 5 Windows-typed targets, argument tuples from per-type adversarial domains, 9 handle kinds incl. nil, closed and returned-with-error handles, pre-states of depth <= 1/2; outcome must not be PANIC, DEADLOCK (decided by the sync shim), HANG or FATAL. Concurrent: all schedules (bound 2/3) of all pairs of ~38 templates plus lock-order programs; a deadlock is 'no enabled thread', decided by the scheduler.",
+   note="Caller's-fault inputs are excluded and listed in the evidence (nil callbacks, nil users, foreign FileInfo for ToSysStat, sizes > 1 MiB for Truncate/WriteAt on in-memory file systems). Name on a nil handle is the sanctioned panic."),
+ "C09": dict(level="model_checking", design="§4 C09", technique="explicit-state BFS over histories of every VFS/File method (by reflection) through RoFS and every object it hands out; base snapshot around every call, twin base for read results",
+   text="All histories <= 2 (quick) / <= 3 (thorough) of ~1700 / ~5300 calls (every method, all 48 open-flag sets, pooled files, pooled Sub file systems, DirEntry/FileInfo values) on RoFS over MemFS and OrefaFS: base tree, contents, modes, owners and mtimes identical before and after every call; mutating calls refused with a permission-class error; read-only calls equal to the same call on a twin base.",
+   note="cwd/umask/user of the base (forwarded by RoFS) are recorded, not judged. O_RDONLY|O_EXCL is treated as unspecified."),
+ "C12": dict(level="fault_enumeration", design="§4 C12", technique="explicit-state BFS in lock-step with a twin base (no failure function / always-nil / read-only function) + exhaustive single-fault enumeration over the recorded consultation trace of every history",
+   text="(i) FailFS without failure function and with an always-nil one is compared call by call and tree by tree with a twin base over all histories <= 2/3 of ~760 calls incl. pooled files and Sub file systems; (ii) for every history <= 2/3 every plan 'consultation k returns E' (2 errors) is run: primitives must return exactly E, composites a non-nil error, the base must be untouched by the failed call, every method must consult its own id before any effect, and every FnVFS id must occur in some trace; (iii) with ReadOnlyFunc the base (incl. mtimes) never changes.",
+   note="FnWriteFile is unreachable from the API (WriteFile is built on OpenFile/Write/Close) and listed as such. Single fault per run."),
+ "C13": dict(level="exploration", design="§4 C13", technique="exhaustive enumeration of all strings (and pairs/triples) up to a length bound over a 13-symbol alphabet, both OS types, against path/filepath (Linux) and a mechanically retargeted copy of the toolchain's Windows path/filepath (validated on the toolchain's own test tables)",
+   text="Clean, Split, Dir, Base, IsAbs, FromSlash, ToSlash, VolumeName, Join, Rel, Abs (Linux), Match and PathIterator (Next/Part/Left/Right/ReplacePart) on every string <= 5 (quick) / <= 6 (thorough), pairs <= 3 / 4, Match patterns <= 4 / 5 x names <= 3, plus a dictionary of volume-shaped prefixes; equality of results and of error-ness; a panic is a violation.",
+   note="Built with -tags avfs_setostype. Abs for Windows not decided (Win32 API). Rel on argument pairs for which Go's own Windows Rel does not terminate is skipped (reference defect). Inputs longer than the bound are not covered (the fuzzing clause is sampling)."),
  "C05": dict(level="model_checking", design="§4 C05", technique="explicit-state BFS over call histories incl. invalid/aliased operands; injected node-graph invariant checker + public-API walk + frame conditions after every call",
    text="Every history of <= 2 (quick) / <= 3 (thorough) calls from a ~430-call alphabet that includes root, empty, relative, ancestor/descendant and identical operands, on MemFS and OrefaFS (Linux- and Windows-typed), with structural invariants (single parent per directory, stored link counters = directory entries, OrefaFS index = reachable paths), ReadDir/Lstat agreement, Nlink/SameFile agreement and frame conditions checked after every call.",
    note="Trusts the injected read-only checker (hooks/*/verif_hooks.go) and the generous definition of 'entries a call names' (operands, what they resolve to, their subtrees and hard-link classes)."),
